@@ -46,6 +46,19 @@ def make_registry():
         return StackStub(cm.zeros_like_shape(shape))
 
     reg.models[Dataset3d.from_shape] = m_from_shape
+    reg.abstract_classes.add(f"{DR}:DriftCorrection")
+    from quantem.core.datastructures.dataset2d import Dataset2d
+
+    prev_isinstance = getattr(reg, "isinstance_model", None)
+
+    def isinstance_model(interp, x, t):
+        """an ImageStub stands for a Dataset2d (and for nothing else)"""
+        if isinstance(x, ImageStub):
+            ts = t if isinstance(t, tuple) else (t,)
+            return any(k is object or (isinstance(k, type) and issubclass(Dataset2d, k)) for k in ts)
+        return prev_isinstance(interp, x, t) if prev_isinstance is not None else NotImplemented
+
+    reg.isinstance_model = isinstance_model
     return reg
 
 
@@ -969,7 +982,42 @@ def dcinit_setup(ctx):
     return NS(self=Obj(DC, {}), images=images, scan_direction_degrees=value, _token=DC._token if good else None, good=good, case=kind)
 
 
-C_DCINIT = Contract(f"{DR}:DriftCorrection.__init__", setup=dcinit_setup,
+def dcinit_modifies(ctx, s):
+    n, _ = given_angles(s.scan_direction_degrees)
+    s.self.fields["_images"] = s.images
+    s.self.fields["_scan_direction_degrees"] = ctx.fresh_arr("angles_stored", (n,), "real")
+
+
+def fd_setup(ctx):
+    """from_data with a list of Dataset2d images (the form validate_list_of_dataset2d hands back unchanged; interpreted in place)"""
+    value, kind = sd_value(ctx)
+    H, W = ctx.fresh("H", "int"), ctx.fresh("W", "int")
+    return NS(cls=DC, images=image_stubs(ctx, 3, H, W), scan_direction_degrees=value, case=kind)
+
+
+def fd_ensures(s):
+    o = s.result
+    ok = isinstance(o, Obj) and o.cls is DC
+    out = [("returns-a-DriftCorrection", ok)]
+    if not ok:
+        return out
+    ims = o.fields.get("_images")
+    out.append(("keeps-the-caller's-images-in-order", isinstance(ims, list) and len(ims) == len(s.images) and all(a is b for a, b in zip(ims, s.images))))
+    # the property's scan direction of image k is the CALLER's angle k: nothing between from_data and the stored attribute may fold,
+    # wrap, sort or otherwise change it (the geometry is 2pi-periodic; preprocess reads exactly this attribute)
+    return out + stored_angles_clauses(o, s.scan_direction_degrees) + (frame_clauses(s, s.old.frame) if s.mode == "verify" else [])
+
+
+def fd_result(ctx, s):
+    o = Obj(DC, {})
+    dcinit_modifies(ctx, NS(self=o, images=s.images, scan_direction_degrees=s.scan_direction_degrees))
+    return o
+
+
+C_FROMDATA = Contract(f"{DR}:DriftCorrection.from_data", setup=fd_setup, ensures=fd_ensures, result=fd_result,
+                      snapshot=lambda s: NS(frame=frame_snapshot(s, ["images", "scan_direction_degrees"])), inline=[f"{CV}:validate_list_of_dataset2d"])
+C_FROMDATA.rt, C_FROMDATA.rt_family = _rt_later("rt_angles"), _rt_later("fam_angles")
+C_DCINIT = Contract(f"{DR}:DriftCorrection.__init__", setup=dcinit_setup, modifies=dcinit_modifies,
                     ensures=lambda s: [("keeps-the-images", s.self.fields.get("_images") is s.images)] + stored_angles_clauses(s.self, s.scan_direction_degrees),
                     raises={RuntimeError: lambda s: s._token is not DC._token})
 
@@ -1147,7 +1195,7 @@ def _foreign(con, mod):
 # sample a of the window at centre + (a - centre_index)/up, returned shift = position of the local peak) are part of this check
 C13_CONTRACTS = [_foreign(C13.C_CCS, C13), _foreign(C13.C_CCS2, C13), _foreign(C13.C_DFTN, C13)]
 
-CONTRACTS = [C_PP4, C_PP3, C_PP, C_AT] + C13_CONTRACTS + [C_KDE, C_TC, C_WI, C_TR, C_DI_INIT, C_SDSET, C_DCINIT, C_VPV, C_PVSET, C09.C_SUBDIVIDE, C09.C_GENERATE]
+CONTRACTS = [C_PP4, C_PP3, C_PP, C_AT] + C13_CONTRACTS + [C_KDE, C_TC, C_WI, C_TR, C_DI_INIT, C_SDSET, C_DCINIT, C_FROMDATA, C_VPV, C_PVSET, C09.C_SUBDIVIDE, C09.C_GENERATE]
 CALLSITE_ONLY = [C_CALCERR, C_CCS]
 
 # ------------------------------------------------------------------------------------------------
@@ -1305,7 +1353,7 @@ def lemma_given_angle(ctx):
 
 LEMMAS = [Lemma("identical-stack-is-a-fixed-point(composition-of-the-contracts)", lemma_identical_stack,
                 uses=["validate_pad_value", "DriftCorrection.preprocess", "DriftInterpolator.warp_image", "DriftCorrection.align_translation", "cross_correlation_shift (C13)"]),
-          Lemma("geometry-for-the-given-scan-direction", lemma_given_angle, uses=["DriftCorrection.__init__", "DriftCorrection.scan_direction_degrees.fset", "DriftCorrection.preprocess"]),
+          Lemma("geometry-for-the-given-scan-direction", lemma_given_angle, uses=["DriftCorrection.from_data", "DriftCorrection.__init__", "DriftCorrection.scan_direction_degrees.fset", "DriftCorrection.preprocess"]),
           Lemma("fixed-point-through-the-cross-correlation-contract", lemma_fixed_point, uses=["cross_correlation_shift (C13)", "dft_upsample (C13)", "DriftCorrection.align_translation"]),
           Lemma("geometry", lemma_geometry, uses=["DriftCorrection.preprocess", "DriftInterpolator.transform_coordinates"]),
           Lemma("knot-counts-agree", lemma_knot_counts_agree, uses=["DriftInterpolator.transform_coordinates"]),
